@@ -6,6 +6,8 @@ import (
 	"fmt"
 	"os"
 	"runtime"
+	"sync"
+	"sync/atomic"
 	"time"
 
 	"github.com/hashicorp/serf/serf"
@@ -164,4 +166,25 @@ func fastTempRoot() string {
 		}
 	}
 	return ""
+}
+
+// volley runs f(0..k-1) on k goroutines that leave a spin barrier together
+// (within nanoseconds when k processors are free; after 200 µs at the latest),
+// and waits for all of them. It is how a step hands the node several inputs
+// "at the same time", as memberlist's packet and stream handlers do.
+func volley(k int, f func(i int)) {
+	var ready atomic.Int32
+	var wg sync.WaitGroup
+	wg.Add(k)
+	for i := 0; i < k; i++ {
+		i := i
+		go func() {
+			defer wg.Done()
+			ready.Add(1)
+			for t0 := time.Now(); ready.Load() < int32(k) && time.Since(t0) < 200*time.Microsecond; {
+			}
+			f(i)
+		}()
+	}
+	wg.Wait()
 }
